@@ -2,6 +2,7 @@
   Model of gocql's `ring` (ring.go) — the three indexes `hosts` (by host id), `hostIPToUUID`
   (host id by node-to-node address), `hostList` (ordered) — and of the diff loop of
   `refreshRing` (host_source.go): add / update / replace on address change / remove.
+  `Ring.remove` is `removeHost` as REPAIRED for KF-C16-1 (props/C16.fix-KF-C16-1.diff).
 
   An `RHost` stands for one `*HostInfo` object: `obj` is the identity of the object, `id` its host id,
   `addr` its node-to-node address (broadcast_address or peer; 0 = none, i.e. 0.0.0.0),
@@ -66,8 +67,20 @@ def eraseFirstId : List RHost → Nat → List RHost
   | [], _ => []
   | h :: t, id => if h.id == id then t else h :: eraseFirstId t id
 
-/-- `removeHost` -/
+/-- `removeHost` (repaired, KF-C16-1): the by-address entry of the removed host's address is deleted
+only when it still maps to the host id being removed
+(`if ip := h.nodeToNodeAddress().String(); r.hostIPToUUID[ip] == hostID { delete(r.hostIPToUUID, ip) }`;
+for the empty id and a missing entry the Go comparison is true and the delete a no-op, as here) -/
 def Ring.remove (r : Ring) (id : Nat) : Ring × Bool :=
+  match lookup r.byId id with
+  | some h => ({ byId := erase r.byId id,
+                 byIp := if lookup r.byIp h.addr = some id then erase r.byIp h.addr else r.byIp,
+                 list := eraseFirstId r.list id }, true)
+  | none => (r, false)
+
+/-- `removeHost` as it was before the repair of KF-C16-1 (kept for the regression examples only):
+the by-address entry is deleted unconditionally -/
+def Ring.removeOld (r : Ring) (id : Nat) : Ring × Bool :=
   match lookup r.byId id with
   | some h => ({ byId := erase r.byId id, byIp := erase r.byIp h.addr, list := eraseFirstId r.list id }, true)
   | none => (r, false)
@@ -121,5 +134,30 @@ def Ring.refresh (r : Ring) (filter : RHost → Bool) (reported : List RHost) : 
   match refreshLoop filter reported (r, r.byId, {}) with
   | ((r1, prev, eff), .ok) => (removeAll r1 prev, .ok, { eff with removed := eff.removed ++ prev.map (·.2) })
   | ((r1, _, eff), e) => (r1, e, eff)
+
+/-! ### the observations the property speaks of ("node details are looked up by id and by address consistently") -/
+
+/-- the hosts of the ring that are NOT found by their id and by their address (the property: none) -/
+def Ring.notFound (r : Ring) : List RHost :=
+  r.allHosts.filter (fun h => !(decide (r.getHost h.id = some h) && decide (r.getHostByIP h.addr = (some h, true))))
+
+/-- the weaker observation that also makes sense while hosts share an address: the hosts of the ring that
+are not found by their id, or whose address does not lead to a host of the ring with that address, or not
+to the host itself although no other host of the ring has its address -/
+def Ring.uncovered (r : Ring) : List RHost :=
+  r.allHosts.filter (fun h => !(decide (r.getHost h.id = some h) &&
+    (match r.getHostByIP h.addr with
+     | (some h', true) => decide (h' ∈ r.allHosts) && h'.addr == h.addr &&
+                          (decide (h' = h) || r.allHosts.any (fun x => decide (x ≠ h) && x.addr == h.addr))
+     | _ => false)))
+
+/-- the addresses `a ≤ n` for which `getHostByIP a` answers "known address" with something else than a
+host of the ring with address `a` — a stale by-address entry (the property: none, after every history) -/
+def Ring.staleAddrs (r : Ring) (n : Nat) : List Nat :=
+  (List.range (n + 1)).filter (fun a =>
+    match r.getHostByIP a with
+    | (some h, true) => !(decide (h ∈ r.allHosts) && h.addr == a)
+    | (none, true) => true
+    | _ => false)
 
 end Ring
